@@ -276,6 +276,18 @@ mod verif_order {
         rec.check(&start, &seq);
     }
 
+    /// concrete worst cases (every pair inverted / two swapped halves) for larger N: cheap for CBMC (no symbolic
+    /// input), and the only one-worker instances beyond N = 3 that fit the memory cap
+    fn concurrent_bubble_sort_one_worker_concrete<const N: usize, const S: usize>(start: [u32; N]) {
+        assert!(S == N * (N - 1) / 2);
+        let rec = Recorder::<N, S>::new(&start);
+        let mut seq = start;
+        let m = OneWorkerManager(OneWorker);
+        let swap: SwapFn<'_, OneWorkerManager> = &|_m, i| rec.swap(i);
+        concurrent_bubble_sort(&m, &mut seq, swap);
+        rec.check(&start, &seq);
+    }
+
     // ---------------------------------------------------------------- harness instances
 
     macro_rules! harness {
@@ -345,6 +357,10 @@ mod verif_order {
     harness_one_worker!(concurrent_one_worker_n3, 4, concurrent_bubble_sort_one_worker_contract::<3, 3>());
     // NOT listed in suite.json: CBMC runs out of memory under the 12 GB cap (see REPORT.md)
     harness_one_worker!(concurrent_one_worker_n4, 7, concurrent_bubble_sort_one_worker_contract::<4, 6>());
+
+    harness_one_worker!(concurrent_one_worker_reversed_n5, 12, concurrent_bubble_sort_one_worker_concrete::<5, 10>([4, 3, 2, 1, 0]));
+    harness_one_worker!(concurrent_one_worker_reversed_n6, 17, concurrent_bubble_sort_one_worker_concrete::<6, 15>([5, 4, 3, 2, 1, 0]));
+    harness_one_worker!(concurrent_one_worker_halves_n6, 17, concurrent_bubble_sort_one_worker_concrete::<6, 15>([3, 4, 5, 0, 1, 2]));
 
     // ---------------------------------------------------------------- self tests (MUST fail)
 
